@@ -277,6 +277,38 @@ def gen_listener_handover(rng):
     return line(True, False, ops, rep=4)
 
 
+def gen_gc_single_edits(rng):
+    """A GlobalConfiguration with a TCP, a UDP, an HTTP and an HTTPS listener, TransportServers and a VirtualServer bound to them,
+    then one to three GlobalConfiguration updates that each change exactly ONE attribute of ONE listener (port, IPv4 or IPv6) and
+    nothing else — same names, protocols, order and count: every bound resource must follow at once."""
+    ls = {"tcp1": [5000, "TCP", "0", "_", "_"], "udp1": [5353, "UDP", "0", "_", "_"], "h1": [8081, "HTTP", "0", "_", "_"], "s1": [8443, "HTTP", "1", "_", "_"]}
+    order = ["tcp1", "udp1", "h1", "s1"]
+    for n in order:       # some listeners start with addresses
+        if rng.chance(1, 3):
+            ls[n][3] = rng.choice(["127.0.0.1", "10.0.0.9"])
+        if rng.chance(1, 4):
+            ls[n][4] = "::1"
+
+    def gc():
+        return "gc|" + "&".join("%s>%d>%s>%s>%s>%s" % (n, ls[n][0], ls[n][1], ls[n][2], ls[n][3], ls[n][4]) for n in order)
+    ops = [gc(),
+           "ts|d|a|u001|1|1|1|1|tcp1|TCP|_", "ts|d|b|u002|2|1|1|1|udp1|UDP|_",
+           "vs|d|v|u003|1|1|1|1|a.ex|/>_|h1|s1"]
+    if rng.chance(1, 2):
+        ops = [ops[1], ops[3], ops[0], ops[2]]          # resources first, the listeners arrive later
+    for _ in range(1 + rng.below(3)):
+        n = rng.choice(order)
+        what = rng.below(3)
+        if what == 0:
+            ls[n][0] = rng.choice([p for p in (5000, 5001, 5353, 8081, 8443, 9000) if p != ls[n][0] and all(p != ls[m][0] or ls[m][1] != ls[n][1] for m in order)])
+        elif what == 1:
+            ls[n][3] = rng.choice([x for x in ("_", "127.0.0.1", "127.0.0.2", "10.0.0.9") if x != ls[n][3]])
+        else:
+            ls[n][4] = rng.choice([x for x in ("_", "::1", "fd00::1") if x != ls[n][4]])
+        ops.append(gc())
+    return line(True, False, ops, rep=4)
+
+
 def gen_admission(rng):
     """A single GlobalConfiguration with up to 7 entries biased to clashes, duplicate and bad names, reserved ports."""
     names = ["a", "b", "c"]
